@@ -387,8 +387,7 @@ int main (int argc, char *argv[]) {
             goto out;
         }
         /* Download the full file */
-        lseek(dst_fd, 0, SEEK_SET);
-        if(ftruncate(dst_fd, 0) < 0) {
+        if(lseek(dst_fd, 0, SEEK_SET) == -1 || ftruncate(dst_fd, 0) < 0) {
             perror(NULL);
             exit_val = 10;
             goto out;
@@ -401,7 +400,11 @@ int main (int argc, char *argv[]) {
             exit_val = 10;
             goto out;
         }
-        lseek(dst_fd, 0, SEEK_SET);
+        if(lseek(dst_fd, 0, SEEK_SET) == -1) {
+            perror(NULL);
+            exit_val = 10;
+            goto out;
+        }
         if(!zck_read_lead(zck_tgt) || !zck_read_header(zck_tgt)) {
             exit_val = 10;
             goto out;
